@@ -179,6 +179,17 @@ def check_history(ctx, pm, H):
             else:
                 shared_lists.append(op_run["args"]["rpms"])
         verdict, reason = model.add(copy.deepcopy(op["args"]), op["meta"])
+        if kind == "modules" and step % 4 == 1 and isinstance(op_run["args"].get("uid"), str):
+            # the caller looked the UID up with the public parser before (to derive a build name, say) and edited what it got
+            # back: the manifest files the module under what the ARGUMENT says
+            try:
+                parts = real.parse_uid(op_run["args"]["uid"])
+                if isinstance(parts, dict):
+                    for k0 in list(parts):
+                        parts[k0] = "scribbled"
+                    ctx.count("modules-uid-parsed-and-result-edited-before-add")
+            except Exception:
+                pass
         exc = None
         try:
             F.apply_real(real, op_run)
